@@ -51,6 +51,14 @@ pub enum Conduit {
     /// generator whose `yield`s sit INSIDE a try block (the catch point lives in a frame that is
     /// suspended and resumed); consumed by a summing `for`
     GenYieldInTry,
+    /// conduits whose frames are all ordinary Koto frames on model-known lines although a native
+    /// function / operator / generator sits in between (C12 checks the whole call chain):
+    /// `fold` with a multi-line function literal
+    FoldTraced,
+    /// `@+` with a multi-line function
+    OpAddTraced,
+    /// generator bound to a LOCAL and consumed by a `for` statement
+    GenLocalFor,
     /// object with `@iterator` returning a generator, consumed by `for`
     OpIterator,
     /// `(a..=a+1).each(|x| f(x))<adaptor><consumer>`: an iterator pipeline through one of the
@@ -135,6 +143,9 @@ pub const CONDUITS: &[Conduit] = &[
     Conduit::GenFold,
     Conduit::GenCatchFor,
     Conduit::GenYieldInTry,
+    Conduit::FoldTraced,
+    Conduit::OpAddTraced,
+    Conduit::GenLocalFor,
     Conduit::OpIterator,
 ];
 
@@ -782,6 +793,14 @@ pub fn generate(r: &mut Rng, k: &GenKnobs) -> Program {
 // Printing to Koto source
 
 pub struct Printed {
+    /// C_FOLDT: (line of the `.fold` call, line of the function literal's body)
+    pub foldt_lines: (u32, u32),
+    /// per function: line of `f<i>(other)` inside OPT<i>'s `@+`
+    pub opt_inner_line: Vec<u32>,
+    /// per function: line of `yield f<i>(x)` in GEN<i>
+    pub gen_yield_line: Vec<u32>,
+    /// per function: line of `for v in g` in GENSUML<i>
+    pub gensuml_for_line: Vec<u32>,
     /// AssignLambdaCall: call site id -> line of the call inside the function literal
     pub lambda_call_line: std::collections::BTreeMap<u32, u32>,
     /// line of `z = a + b` in the GAYGEN helper (first statement after a yield)
@@ -943,6 +962,9 @@ impl Printer {
                     Conduit::GenFold => format!("GEN{}({a}).fold(0, |acc, x| acc + x)", c.func),
                     Conduit::GenCatchFor => format!("GENCSUM{}({a})", c.func),
                     Conduit::GenYieldInTry => format!("GENYSUM{}({a})", c.func),
+                    Conduit::FoldTraced => format!("C_FOLDT({f}, {a})"),
+                    Conduit::OpAddTraced => format!("(OPT{} + {a})", c.func),
+                    Conduit::GenLocalFor => format!("GENSUML{}({a})", c.func),
                     Conduit::OpIterator => format!("ITSUM{}()", c.func),
                     Conduit::Chain(ad, co) => {
                         self.chains.insert((ad, co));
@@ -1195,6 +1217,11 @@ pub fn print(p: &Program, opts: &PrintOpts) -> Printed {
     pr.line(0, "export C_APPLY = |a, g|");
     let apply_line = pr.cur_line();
     pr.line(1, "return g(a)");
+    pr.line(0, "export C_FOLDT = |f, a|");
+    let foldt_call = pr.cur_line();
+    pr.line(1, "return (a..=a + 1).fold 0, |acc, x|");
+    let foldt_inner = pr.cur_line();
+    pr.line(2, "acc + f(x)");
     pr.line(0, "export C_PIPE = |f, a| a -> f");
     pr.line(0, "export C_EACH = |f, a| (a..=a + 1).each(|x| f(x)).count()");
     pr.line(0, "export C_KEEP = |f, a| (a..=a + 1).keep(|x| f(x) > -100000).count()");
@@ -1210,6 +1237,9 @@ pub fn print(p: &Program, opts: &PrintOpts) -> Printed {
         pr.line(1, &format!("@display: || 'T{k}({{self.code}})'"));
         pr.line(0, &format!("export MKERR{k} = |c| {{code: c}}.with_meta(METAT{k})"));
     }
+    let mut opt_inner_line = vec![0u32; p.funcs.len()];
+    let mut gen_yield_line = vec![0u32; p.funcs.len()];
+    let mut gensuml_for_line = vec![0u32; p.funcs.len()];
     for (i, f) in p.funcs.iter().enumerate().rev() {
         pr.line(0, &format!("export f{i} = |a|"));
         pr.locals(1);
@@ -1235,9 +1265,21 @@ pub fn print(p: &Program, opts: &PrintOpts) -> Printed {
         pr.line(1, &format!("@==: |other| f{i}(other) > -100000"));
         pr.line(0, &format!("export OPD{i} ="));
         pr.line(1, &format!("@display: || 'D{{f{i}(0)}}'"));
+        pr.line(0, &format!("export OPT{i} ="));
+        pr.line(1, "@+: |other|");
+        opt_inner_line[i] = pr.cur_line();
+        pr.line(2, &format!("f{i}(other)"));
         pr.line(0, &format!("export GEN{i} = |n|"));
         pr.line(1, "for x in n..=n + 1");
+        gen_yield_line[i] = pr.cur_line();
         pr.line(2, &format!("yield f{i}(x)"));
+        pr.line(0, &format!("export GENSUML{i} = |n|"));
+        pr.line(1, "s = 0");
+        pr.line(1, &format!("g = GEN{i}(n)"));
+        gensuml_for_line[i] = pr.cur_line();
+        pr.line(1, "for v in g");
+        pr.line(2, "s += v");
+        pr.line(1, "return s");
         pr.line(0, &format!("export GENSUM{i} = |n|"));
         pr.line(1, "s = 0");
         pr.line(1, &format!("for v in GEN{i}(n)"));
@@ -1327,6 +1369,10 @@ pub fn print(p: &Program, opts: &PrintOpts) -> Printed {
     }
     let lines = pr.out.len() as u32;
     Printed {
+        foldt_lines: (foldt_call, foldt_inner),
+        opt_inner_line,
+        gen_yield_line,
+        gensuml_for_line,
         lambda_call_line: pr.lambda_call_line.clone(),
         gay_line,
         apply_line,
